@@ -213,6 +213,11 @@ func c01Roundtrip(seqs []gts.Sequence, what string) (ok bool, sig, detail string
 	if len(back) != len(seqs) {
 		return false, "record-count", what + fmt.Sprintf(": wrote %d records, read %d", len(seqs), len(back))
 	}
+	for i := range back {
+		if n, m := gts.Len(back[i]), len(back[i].Bytes()); n != m {
+			return false, "len-vs-residues", what + fmt.Sprintf(": record %d read back reports Len()=%d but delivers %d residues", i, n, m)
+		}
+	}
 	for i := range seqs {
 		a, b := c01Dump(seqs[i]), c01Dump(back[i])
 		if a != b {
@@ -271,7 +276,7 @@ func c01Strings(maxLen int) []string {
 	return out
 }
 
-var c01Fields = []string{"definition", "accession", "version", "dblink-key", "dblink-value", "keyword", "source", "organism", "taxon",
+var c01Fields = []string{"keyword-last", "taxon-mid", "definition", "accession", "version", "dblink-key", "dblink-value", "keyword", "source", "organism", "taxon",
 	"ref-info", "ref-authors", "ref-group", "ref-title", "ref-journal", "ref-pubmed", "ref-remark", "comment", "extra-value",
 	"qual-quoted", "qual-literal", "locus", "division"}
 
@@ -299,8 +304,8 @@ func c01Writable(field, v string) bool {
 		return trimmedSingleLine(v)
 	case "dblink-key":
 		return v != "" && trimmedSingleLine(v) && !strings.Contains(v, ":")
-	case "keyword", "taxon":
-		return v != "" && !strings.Contains(v, "; ") && !strings.Contains(v, "\n") && !strings.HasSuffix(v, ";") && !strings.HasSuffix(v, ".") && strings.TrimSpace(v) == v
+	case "keyword", "taxon", "keyword-last", "taxon-mid":
+		return v != "" && !strings.Contains(v, "; ") && !strings.Contains(v, "\n") && !strings.HasSuffix(v, ";") && strings.TrimSpace(v) == v
 	case "ref-authors", "ref-group", "ref-title", "ref-journal", "ref-remark":
 		return !strings.HasPrefix(v, " ") && !strings.HasPrefix(v, "\n")
 	case "qual-quoted":
@@ -329,6 +334,10 @@ func c01WithField(field, v string) seqio.GenBank {
 		f.DBLink = seqio.Dictionary{{Key: "BioProject", Value: v}, {Key: "Other", Value: "X2"}}
 	case "keyword":
 		f.Keywords = []string{"k0", v, "k2"}
+	case "keyword-last":
+		f.Keywords = []string{"k0", v}
+	case "taxon-mid":
+		f.Source.Taxon = []string{"T0", v, "T2"}
 	case "source":
 		f.Source.Species = v
 	case "organism":
@@ -467,6 +476,11 @@ func c01Eval(c c01Case) (ok bool, sig, detail string) {
 		gb := c01Base()
 		gb.Origin = seqio.NewOrigin(c16Residues(c.N, 1))
 		gb.Table = gts.FeatureSlice{{Key: "source", Loc: gts.Range(0, maxInt(c.N, 1)), Props: gts.Props{{"organism", "x"}}}}
+		// a BasicSequence carries the residues as plain bytes: what is read back is compared with them, not with Origin's own decoding
+		basic := gts.New(gb.Fields, gb.Table, c16Residues(c.N, 1))
+		if ok, sig, detail := c01Roundtrip([]gts.Sequence{basic}, fmt.Sprintf("%d residues (BasicSequence with GenBank fields)", c.N)); !ok {
+			return false, sig, detail
+		}
 		return c01Roundtrip([]gts.Sequence{gb}, fmt.Sprintf("%d residues", c.N))
 	case "table":
 		gb := c01Base()
@@ -684,7 +698,7 @@ func init() {
 					gb := c01Base()
 					gb.Fields.Molecule, gb.Fields.Topology = mol, topo
 					gb.Fields.References[0].Number = 10
-					gb.Fields.References = append(gb.Fields.References, seqio.Reference{Number: 100, Info: "(sites)", Title: "t"})
+					gb.Fields.References = append(gb.Fields.References, seqio.Reference{Number: 100, Info: "(sites)", Title: "t"}, seqio.Reference{Number: 1000, Info: "(sites)", Title: "t4"}, seqio.Reference{Number: 123456, Title: "t6"})
 					r.Evals.Add(1)
 					if ok, sig, detail := c01Roundtrip([]gts.Sequence{gb}, fmt.Sprintf("molecule %s topology %v", mol, topo)); !ok {
 						r.Fail(engine.Failure{Sig: sig, Case: c01Case{Kind: "locus", Value: string(mol)}, Detail: detail, Size: 660})
